@@ -34,8 +34,8 @@ impl Check for LibQ {
         match self.prop {
             "C05" => "case = one generated library (sub-directories, self links, dangling targets, many links to one note, links in emphasis / headings / nested lists / after tables and code, wiki and piped links, .md suffixes); for every note and every link target the block / inline backlink sets (owner note, first line of the linking block) from the Graph API are compared with an independent link scan + resolver; distinct = hash of the (source dir, target dir, link kind, container) combinations present".into(),
             "C15" => "exhaustive: every (key, directory) pair over relative paths of depth <= 4 on a 4-name alphabet (names with dots and spaces) through Key::to_rel_link_url / from_rel_link_url, plus decorated urls (./, x/../, .md) against the harness's own path algebra; distinct = pairs whose relative url is non-trivial (contains ../ or a directory)".into(),
-            "C17" => "case = (library with a random block-reference graph: trees, DAGs with sharing, cycles, self loops, dangling targets; key; depth 0..6, chains and self-loops up to 255) squashed by the real code, rebuilt with build_key_from_iter and exported, compared (multiset of blocks, kept references) with an independent recursive expansion of the source texts; CPU time of each squash judged against a budget derived from the model's output size; distinct = hash of (reference graph shape, depth)".into(),
-            _ => "case = one library with heading trees and an acyclic block-reference graph (duplicate / empty titles, > 100 headings sometimes); Graph::paths and Database::global_search compared with an outline model computed by the independent scanner from the formatted texts: completeness, soundness of every step, names, <= 100 results, documented order recomputed with the same fuzzy matcher; distinct = hash of (outline shapes, reference edges)".into(),
+            "C17" => "case = (library with a random block-reference graph: trees, DAGs with sharing, cycles, self loops, dangling targets, references under headings, inside list items and inside block quotes; key; depth 0..6, chains and self-loops up to 255) squashed by the real code, rebuilt with build_key_from_iter and exported, compared (multiset of blocks, kept references) with an independent recursive expansion of the source texts; CPU time of each squash judged against a budget derived from the model's output size; distinct = hash of (reference graph shape, depth)".into(),
+            _ => "case = one library with heading trees and an acyclic block-reference graph (duplicate / empty titles, > 100 headings sometimes), half of them reached through edits of earlier versions with other headings and references; Graph::paths and Database::global_search compared with an outline model computed by the independent scanner from the formatted texts: completeness, soundness of every step, names, <= 100 results, documented order recomputed with the same fuzzy matcher, ranks against a model (reference count on a note's first block, 0 on every other heading), the same listing through workspace/symbol and `iwe paths`; distinct = hash of (outline shapes, reference edges)".into(),
         }
     }
     fn assumptions(&self) -> Vec<String> {
@@ -650,8 +650,10 @@ pub fn gen_outline_lib(rng: &mut Rng, n: usize, big: bool) -> (BTreeMap<String, 
                 match rng.below(6) {
                     0 => t.push_str(&format!("- {}\n  - {}\n\n", words.next(&mut rng, false), words.next(&mut rng, false))),
                     1 => t.push_str(&format!("> # {}\n>\n> {}\n\n", words.next(&mut rng, false), words.next(&mut rng, false))),
-                    2 | 3 => {
-                        // block reference forward (acyclic), sometimes dangling
+                    2 | 3 if !big || shape.iter().filter(|x| x.starts_with('r') || x.starts_with('d')).count() < 10 => {
+                        // block reference forward (acyclic), sometimes dangling; big libraries hold at most ten: the number
+                        // of paths doubles with every diamond (2^k paths for k stacked diamonds is what the listing means,
+                        // not a defect, but it would turn the quick tier into minutes)
                         let target = if rng.chance(1, 8) { Some("missing1".to_string()) } else { keys.get(i + 1 + rng.below(3)).cloned() };
                         if let Some(target) = target {
                             let rel = mdscan::relativize(&target, &dir);
@@ -730,7 +732,7 @@ fn c18(tier: Tier, seed: u64, case: u64) -> CaseReport {
                 1 => String::new(),
                 _ => format!("{}\n", texts[k]),
             };
-            for _ in 0..rng.range(1, 3) {
+            for _ in 0..rng.range(1, if big { 1 } else { 3 }) {
                 let target = rng.pick(&keys).clone();
                 t.push_str(&format!("[old ref]({})\n\n", mdscan::relativize(&target, &dir)));
             }
